@@ -8,9 +8,10 @@ package snapshot
 // unchanged tree, and of the crash-point hooks (compare the "PTS" lines with those of the symbolic
 // run, VERIF_PRINT=1).
 //
-// VERIF_SWEEP=quick: the quick tier of VerifC07Crash (repair crashes between calls only, plans
-// with the database verification step); otherwise the thorough tier restricted to the quick shapes
-// (repair crashes inside calls as well, plans with and without the verification step).
+// VERIF_SWEEP=quick: the quick tier of VerifC07Crash (plans with the database verification step);
+// VERIF_SWEEP=twice: VerifC07CrashTwiceInside (repair crashes inside calls as well);
+// otherwise the thorough tier of VerifC07Crash restricted to the quick shapes (plans with and
+// without the verification step).
 
 import (
 	"encoding/json"
@@ -117,7 +118,11 @@ func TestVerifSweepOpsCrash(t *testing.T) {
 }
 
 func TestVerifSweepC07(t *testing.T) {
-	quick := os.Getenv("VERIF_SWEEP") == "quick"
+	quick := os.Getenv("VERIF_SWEEP") == "quick" || os.Getenv("VERIF_SWEEP") == "twice"
+	entry := VerifC07Crash
+	if os.Getenv("VERIF_SWEEP") == "twice" {
+		entry = VerifC07CrashTwiceInside
+	}
 	if !quick {
 		os.Setenv("VERIF_TIER", "thorough")
 		defer os.Unsetenv("VERIF_TIER")
@@ -139,7 +144,7 @@ func TestVerifSweepC07(t *testing.T) {
 							vals := map[string]any{"older": vNum(older), "fullWALs": vNum(fullWALs), "incs": vNum(incs),
 								"noVerifyDB": vNum(noVerify), "crashAt": vNum(at), "crashInRepair0": vNum(at2)}
 							vSweepLastOp = ""
-							vSweepPartials(VerifC07Crash, vals, 0, func(v map[string]any, out []string, pruned bool) {
+							vSweepPartials(entry, vals, 0, func(v map[string]any, out []string, pruned bool) {
 								runs++
 								for _, o := range vSweepBad(out) {
 									t.Errorf("%v: %s", v, o)
